@@ -224,17 +224,22 @@ type outcome struct {
 	quies bool
 	dur   time.Duration
 	acc   bool // accepted by LeaseTrace.tla
+	// Consul runs: the endpoint-level trace (requests, environment, return values) and the number of
+	// ground-truth monitor evaluations
+	clog   []cevent
+	cevals int
 }
 
 func main() {
 	args := core.ParseArgs()
 	rep := core.NewReport("C08", "model_checking", args)
-	rep.Rule = "scripts = one per explored edge (state, call, answer, request) of Lease.tla's exhaustive state graph, behind a shortest path (4 configurations candidate x stored cluster id, TTL 300 ms) plus the renewal-focused configuration (TTL 2600 ms) and the static leaser; each is executed against a real Store; distinct = distinct (configuration, sequence of answers and requests); non-trivial = the node obtains a lease, streams, or is refused by a cluster-id / candidate guard (everything except scripts that only ever fail to reach the lease service)"
+	rep.Rule = "scripts = one per explored edge (state, call, answer, request) of Lease.tla's exhaustive state graph, behind a shortest path (4 configurations candidate x stored cluster id, TTL 300 ms) plus the renewal-focused configuration (TTL 2600 ms) and the static leaser; each is executed against a real Store; distinct = distinct (configuration, sequence of answers and requests); non-trivial = the node obtains a lease, streams, or is refused by a cluster-id / candidate guard (everything except scripts that only ever fail to reach the lease service); Consul stage: one script per explored edge of ConsulLease.tla's exhaustive state graph (HTTP request x answer class, environment action), replayed on the real consul.Leaser against a fake Consul endpoint (non-trivial = at least one leaser-level call completed), plus a seeded subset of Lease.tla's scripts on a real Store whose leaser is the real consul.Leaser, plus the static leaser for candidate x role x stored id"
 	rep.Assumptions = []string{
 		"the lease service is scripted: answers are arbitrary per call, except that a lease reported expired is never reported renewed afterwards",
 		"requests of the environment (demote, handoff) arrive while a service call is in flight (synchronous observation points), at most 1 (quick) / 2 (thorough) per script",
 		"timing clauses use the bound TTL + 3 s and are re-run before they are reported",
-		"consul.Leaser against a fake Consul endpoint is not covered by this check",
+		"Consul stage: the fake endpoint implements Consul's documented session / KV lock semantics (ConsulLease.tla states the same rules; the two are compared request by request), it is not checked against a real Consul server; it has no clock: expiry, lock-delay and competitors are actions of the script",
+		"Consul stage, store level: the answers of Lease.tla's scripts are realised on the endpoint by seeded recipes (a subset of the scripts); the primary's stream stays scripted",
 	}
 	rep.Exhaustive = true
 	defer core.Cleanup()
@@ -311,6 +316,11 @@ func main() {
 		core.Infra("expected >= 500 scripts from TLC, got %d", len(scripts))
 	}
 	scripts = append(scripts, staticScripts()...)
+	if os.Getenv("C08_ONLY") == "consul" {
+		// development switch: only the Consul stage (never used by bin/check's registered commands)
+		consulStage(rep, args, scripts)
+		rep.Finish()
+	}
 
 	// seeded order (the set is the same for every seed; the seed permutes scheduling and batches)
 	rnd := rand.New(rand.NewSource(args.Seed))
@@ -338,6 +348,9 @@ func main() {
 
 	// ---- 5. binding self-test: a corrupted log must be rejected ----
 	beatWhile("tlc", func() { selfTest(rep, outs) })
+
+	// ---- 6. the Consul mapping: ConsulLease.tla, consul.Leaser against a fake Consul endpoint ----
+	consulStage(rep, args, scripts)
 
 	nontriv := 0
 	for _, o := range outs {
@@ -549,12 +562,36 @@ func replay(rep *core.Report, path string) {
 		core.Infra("read replay: %v", err)
 	}
 	var f struct {
+		Seed   int64 `json:"seed"`
 		Replay struct {
-			Script *script `json:"script"`
+			Script       *script  `json:"script"`
+			ConsulScript *cscript `json:"consul_script"`
 		} `json:"replay"`
 	}
-	if err := json.Unmarshal(b, &f); err != nil || f.Replay.Script == nil {
+	if err := json.Unmarshal(b, &f); err != nil || (f.Replay.Script == nil && f.Replay.ConsulScript == nil) {
 		core.Infra("parse replay: %v", err)
+	}
+	consulSeed = f.Seed
+	consulCAS = probeCAS()
+	if cs := f.Replay.ConsulScript; cs != nil {
+		// a script of ConsulLease.tla on the real consul.Leaser against the fake endpoint
+		nodes := []string{"n1"}
+		for _, st := range cs.H {
+			if st.N == "n2" || st.V == "n2" {
+				nodes = []string{"n1", "n2"}
+			}
+		}
+		outs := replayConsul([]*cscript{cs}, nodes, len(cs.St.Live), 1)
+		for _, l := range cs.compact() {
+			fmt.Println(l)
+		}
+		for _, r := range outs[0].log {
+			j, _ := json.Marshal(r)
+			fmt.Println(string(j))
+		}
+		fmt.Printf("spec->impl differences=%v\n", outs[0].mism)
+		judgeConsul(rep, outs)
+		return
 	}
 	o := runScript(f.Replay.Script, 1)
 	for _, e := range o.log {
